@@ -1,7 +1,7 @@
 --------------------------- MODULE Export_Witness ---------------------------
 EXTENDS Witness, Json, SequencesExt
 CONSTANT ScenOut
-ASSUME ndJsonSerialize(ScenOut, SetToSeq({[pc |-> w.pc, p1 |-> w.p1, p2 |-> w.p2] : w \in WProgs}))
+ASSUME ndJsonSerialize(ScenOut, SetToSeq({[kind |-> w.kind, pc |-> w.pc, p1 |-> w.p1, p2 |-> w.p2] : w \in WProgs}))
 ASSUME PrintT(<<"exported", Cardinality(WProgs)>>)
 VARIABLE x
 Init == x = 0
